@@ -76,6 +76,26 @@ def plane_transform_rule(cx):
         no_projections(cx, b, 'iso', 'Plane3::transform_by')
 
 
+def plane_intersection_distance_rule(cx):
+    b = cx.fn('geom3::plane3::Plane3::intersection_distance')
+    if not b:
+        return
+    N, SN, SPT = '(field normal (param self))', '(field normal (param sp))', '(field point (param sp))'
+    P0 = f'(call OPoint::from (call Matrix::mul {N} (field d (param self))))'
+    DEN = f'(or (call Matrix::dot {N} {SN}) (call Matrix::dot {SN} {N}))'
+    GAP = f'(or (call Matrix::dot (call OPoint::sub {P0} {SPT}) {N}) (call Matrix::dot {N} (call OPoint::sub {P0} {SPT})) ' \
+          f'(sub (field d (param self)) (or (call Matrix::dot {N} (field coords {SPT})) (call Matrix::dot (field coords {SPT}) {N}))))'
+    somes = [(s, d) for s, d in cx.rets(b) if d[0] == 'agg' and d[1].endswith('Option::Some')]
+    ok = len(somes) == 1
+    if ok:
+        s, d = somes[0]
+        ok = match(f'(agg * (0 (div {GAP} {DEN})))', d) is not None
+        ok = ok and cx.guarded(b, s.bb, f'(le {DEN} $eps)', False) is not None
+    cx.ob('EXPR', 'Plane3::intersection_distance', ok,
+          'distance along the surface point\'s normal to the plane = (n*d - p).n / (n.m), with n and d both of THIS plane (its reference point n*d lies on it) and m the '
+          'surface point\'s normal; a position enters only as a difference projected on the plane normal', where=b.file, found=somes[0][1] if somes else None)
+
+
 def run(cx):
     # crate-wide: a position enters a dot product only inside a difference of projections (or as the plane offset)
     E.posdot(cx, floor=5)
@@ -189,7 +209,10 @@ def run(cx):
                   'a and b are moved by the full isometry then projected, the direction is rotated then projected', where=b.file)
         ks = sorted(k for _, k in iso_apps(cx, b, 'iso'))
         cx.ob('KIND', 'Distance3::to_2d:kinds', ks == ['point', 'point', 'unit'], 'two point applications and one rotation-only application', found=str(ks))
-    # the optional transform of project_with_tol is covered under C02 (applied to the query exactly once)
+    # the optional transform of project_with_tol: applied to the query exactly once, and the angle measured from that same query (rule shared with C02)
+    from rules.C02 import project_with_tol_rules
+    project_with_tol_rules(cx)
+    plane_intersection_distance_rule(cx)
 
 
 def find_same_iter(tgt, x):
